@@ -212,7 +212,7 @@ class Contract:
     def __init__(self, target, props, params, pre=(), post=(), raises=None, post_exc=None, modifies=(),
                  returns=None, loops=None, unroll=None, inline=(), locals_=None, globals_=None,
                  build=None, always_inline=False, assume_noraise=False, any_raises=None, note="",
-                 ghost_pre=(), checks=None, max_cases=400, enter=(), obj_fields=None, obj_protocol=None, ghost=None, mutable_fields=(), obj_methods=None):
+                 ghost_pre=(), checks=None, max_cases=400, enter=(), obj_fields=None, obj_protocol=None, ghost=None, mutable_fields=(), obj_methods=None, opaque_methods=None):
         self.target = target
         self.props = list(props)
         self.params = dict(params)
@@ -239,6 +239,7 @@ class Contract:
         self.ghost = dict(ghost or {})
         self.mutable_fields = set(mutable_fields)
         self.obj_methods = dict(obj_methods or {})
+        self.opaque_methods = dict(opaque_methods or {})
         REGISTRY[target] = self
 
     @property
